@@ -8,7 +8,9 @@ import (
 var (
 	// cacheTimeZone caches time.Location to avoid allocs and increase performance.
 	// time.Location should only need to be calculated once.
-	cacheTimeZone  = map[int32]*time.Location{}
+	// The key is the zone's text ("+05:30"): two spellings of one offset
+	// ("+00:00" and "-00:00") are different zones with different names.
+	cacheTimeZone  = map[[6]byte]*time.Location{}
 	mutexTimeZones = sync.RWMutex{}
 )
 
@@ -16,15 +18,17 @@ var (
 // with a *time.Location creating it when not cound in the cache.
 // RWMutex for concurrancy.
 func getLocation(offset int32, buf []byte) *time.Location {
+	var key [6]byte
+	copy(key[:], buf)
 	mutexTimeZones.RLock()
-	if z, ok := cacheTimeZone[offset]; ok {
+	if z, ok := cacheTimeZone[key]; ok {
 		mutexTimeZones.RUnlock()
 		return z
 	}
 	mutexTimeZones.RUnlock()
 	mutexTimeZones.Lock()
 	l := time.FixedZone(string(buf), int(offset))
-	cacheTimeZone[offset] = l
+	cacheTimeZone[key] = l
 	mutexTimeZones.Unlock()
 	return l
 }
